@@ -953,8 +953,11 @@ class Executor(Generic[TContext]):
             try:
                 await wait({task, abort}, return_when=FIRST_COMPLETED)
             except CancelledError:
-                # cancelled from outside: do not orphan the wrapped awaitable
+                # cancelled from outside: do not orphan the wrapped awaitable,
+                # and let it unwind before the cancellation proceeds
                 task.cancel()
+                with suppress(BaseException):
+                    await task
                 raise
             finally:
                 if not abort.done():
